@@ -34,7 +34,7 @@ fn main() {
         "worker" => {
             if args.len() < 7 { usage(); }
             let tier = args[3].clone();
-            let budget: u64 = std::env::var("VF_BUDGET_S").ok().and_then(|s| s.parse().ok()).unwrap_or(if tier == "quick" { 40 } else { 1500 });
+            let budget: u64 = std::env::var("VF_BUDGET_S").ok().and_then(|s| s.parse().ok()).unwrap_or(if tier == "quick" { 150 } else { 1500 });
             let ctx = run::Ctx {
                 id: args[2].clone(), tier, seed: args[4].parse().unwrap(), shard: args[5].parse().unwrap(), nshards: args[6].parse().unwrap(),
                 deadline: std::time::Instant::now() + std::time::Duration::from_secs(budget),
